@@ -6,6 +6,7 @@ import (
 	"sync/atomic"
 
 	"github.com/deepteams/webp/internal/dsp"
+	"github.com/deepteams/webp/internal/verifhook"
 )
 
 // parallelState holds pooled buffers for parallel encoding.
@@ -26,6 +27,7 @@ var parallelPool sync.Pool
 // getParallelState returns a pooled or new parallelState sized for the given dimensions.
 func getParallelState(numWorkers, mbW, mbH int, useDerr bool) *parallelState {
 	if v := parallelPool.Get(); v != nil {
+		verifhook.Pool("lossy.parallel", true)
 		ps := v.(*parallelState)
 		// Check if existing state is large enough.
 		if len(ps.workers) >= numWorkers && len(ps.rs.rows) >= mbH && len(ps.topY) >= mbW*16 && len(ps.topNz) >= mbW {
@@ -86,11 +88,13 @@ func newRowSync(mbH int) *rowSync {
 // waitFor blocks until row y has completed at least needed MBs.
 // Fast path uses atomic load (no lock). Slow path uses cond.Wait.
 func (rs *rowSync) waitFor(y int, needed int32) {
+	verifhook.Yield("wait", y, int(needed))
 	r := &rs.rows[y]
 	if r.done.Load() >= needed {
 		return
 	}
 	r.waiters.Add(1)
+	verifhook.Yield("wait.registered", y, int(needed))
 	r.mu.Lock()
 	for r.done.Load() < needed {
 		r.cond.Wait()
@@ -103,8 +107,10 @@ func (rs *rowSync) waitFor(y int, needed int32) {
 // Fast path: if no goroutine is waiting, just do an atomic store.
 // Slow path: Lock + Broadcast when waiters are present.
 func (rs *rowSync) signal(y int, done int32) {
+	verifhook.Yield("signal", y, int(done))
 	r := &rs.rows[y]
 	r.done.Store(done)
+	verifhook.Yield("signal.stored", y, int(done))
 	if r.waiters.Load() > 0 {
 		r.mu.Lock()
 		r.mu.Unlock()
@@ -173,6 +179,7 @@ func (enc *VP8Encoder) encodeFrameParallel(stats *ProbaStats) {
 	// overhead — beyond 6 workers the pipeline depth (3 rows) limits
 	// parallelism and extra goroutines just add sync contention.
 	numWorkers := runtime.GOMAXPROCS(0)
+	numWorkers = verifhook.Workers("lossy.rows", numWorkers)
 	if numWorkers > 6 {
 		numWorkers = 6
 	}
@@ -229,6 +236,7 @@ func (enc *VP8Encoder) encodeFrameParallel(stats *ProbaStats) {
 				if y >= mbH {
 					return
 				}
+				verifhook.Yield("claim", y, 0)
 				enc.encodeRow(w, y, topY, topU, topV, topModes, topNz, topNzDC, rs)
 			}
 		}(&workers[wi])
@@ -325,6 +333,7 @@ func (enc *VP8Encoder) encodeRow(w *RowWorker, y int, topY, topU, topV, topModes
 		reconstructMBParallel(enc, w, x, y, info, seg)
 
 		// 7. Export: write back to planes and update context.
+		verifhook.Yield("export", y, x)
 		exportParallel(enc, w, x, y, topY, topU, topV, topModes, &leftY, &leftU, &leftV, &leftModes, &topLeftY, &topLeftU, &topLeftV, info)
 
 		// 8. Update NZ context for next MB / next row.
